@@ -211,6 +211,17 @@ def do_step(w, dm, step):
                 app_send(w, dm, "c", MARK + b"f", "none")
             w.tick(dt=0.001)
         w.fates = saved
+    elif step == "fastsilent":
+        # busy-loop owners (update every millisecond) on a link that is silent in BOTH directions: nobody hears anything, the
+        # ack field stands still, and whatever each end emits on its own timers is limited by the send-rate cap only
+        saved = w.fates
+        w.fates = []
+        w.start_blackout("both", 1300)
+        app_send(w, dm, "c", MARK + b"q", "best")
+        app_send(w, dm, "s", MARK + b"r", "best")
+        for i in range(1300):
+            w.tick(dt=0.001)
+        w.fates = saved
     elif step == "rehello":
         # a client starts a new handshake INSIDE the running session (its hello travels sealed) while the server has
         # application data queued and awaiting retry: that data stays sealed whatever the server answers
@@ -248,7 +259,7 @@ def scenario(params, ch):
     mon = NonceMonitor()
     dm = DeliveryMonitor(flag_delivery=False)
     patches = seams.Patches()
-    if start == "ring63":
+    if start.startswith("ring63"):
         patches.set(SeqNum, "_max_sequence", 63)
         patches.set(SeqNum, "_threshold", 31)
     w = None
@@ -304,7 +315,12 @@ def scenario(params, ch):
         else:
             # "two": two sessions of one client process with one server at the same time (the second one keeps exchanging
             # traffic of every kind); "resession": the same client object connects again within the same second
-            w = World(n_clients=(2 if start == "two" else 1), order=order, latency=latency, chooser=ch, monitors=[mon, dm], dt=dt)
+            ka_cfg = None
+            if start.startswith("ring63ka"):
+                # non-default keep-alive (= resend) interval BELOW the send interval on both ends: the send-rate cap alone
+                # must keep a lap of the datagram number above one clock second
+                ka_cfg = {"setKeepAliveInterval": float(start[8:])}
+            w = World(n_clients=(2 if start == "two" else 1), order=order, latency=latency, chooser=ch, monitors=[mon, dm], dt=dt, server_cfg=ka_cfg, client_cfg=ka_cfg)
             w.run_until_connected()
             if start == "two":
                 add_bystander(w, dm)
@@ -381,6 +397,11 @@ def params_list(tier):
             out.append((start, p, "cs", 1, 1.0 / 64))
             if tier == "thorough":
                 out.append((start, p, "sc", 0, 0.02))
+    for ka in ("0.0", "0.004"):
+        for p in (("fastsilent",), ("fastloop",), ("idle0.5", "fastsilent")):
+            out.append(("ring63ka" + ka, p, "cs", 1, 1.0 / 64))
+            if tier == "thorough":
+                out.append(("ring63ka" + ka, p, "sc", 0, 0.02))
     for start in ("fresh", "near-wrap", "ring63"):
         for p in progs:
             if "skick" in p and p[-1] != "skick" or p.count("skick") > 1:
